@@ -18,8 +18,8 @@ import (
 	"github.com/DistCompiler/pgo/distsys"
 	"github.com/DistCompiler/pgo/distsys/tla"
 	gen "github.com/DistCompiler/pgo/systems/nestedcrdtimpl"
-	"verif/mc/sys/envproc"
 	ss "verif/mc/specstep"
+	"verif/mc/sys/envproc"
 )
 
 type Config struct {
@@ -146,7 +146,9 @@ func (c Config) node() distsys.MPCalArchetype {
 	const A = "Node"
 	type I = distsys.ArchetypeInterface
 	res := func(iface I) tla.Value { return num(c.resourceOf(int(iface.Self().AsNumber()))) }
-	local := func(iface I, n string) distsys.ArchetypeResourceHandle { return iface.RequireArchetypeResource(A + "." + n) }
+	local := func(iface I, n string) distsys.ArchetypeResourceHandle {
+		return iface.RequireArchetypeResource(A + "." + n)
+	}
 	get := func(iface I, n string) (tla.Value, error) { return iface.Read(local(iface, n), nil) }
 	set := func(iface I, n string, v tla.Value) error { return iface.Write(local(iface, n), nil, v) }
 	send := func(next string, msg func() tla.Value, before func(iface I) error) envproc.Section {
